@@ -2,10 +2,13 @@ package core
 
 import (
 	"fmt"
+	"os"
 	"runtime"
 	"sort"
 	"strings"
 )
+
+var debugLog = os.Getenv("VERIF_DEBUG_LOG") != ""
 
 // Class identifies a kind of violation. Shrinking preserves the class; the
 // known-findings file lists classes.
@@ -76,6 +79,9 @@ func NewT(property, engine string, src *Source, keep bool) *T {
 // Keep is set, kept as text. Logging never draws and never reads a clock.
 func (t *T) Logf(format string, a ...interface{}) {
 	t.Out.Steps++
+	if debugLog {
+		fmt.Fprintf(os.Stderr, "LOG "+format+"\n", a...)
+	}
 	if t.Keep {
 		s := fmt.Sprintf(format, a...)
 		t.Out.Digest = Mix(t.Out.Digest, HashString(s))
